@@ -321,3 +321,21 @@ Theorem C17_fp2_div_partial : Znumtheory.prime p -> forall a b : T2, norm2 b mod
   canon2 (I2mul (I2div a b) b) = canon2 a.
 Proof. exact fp2_div_ok. Qed.
 Print Assumptions C17_fp2_div_partial.
+
+(* ---- sm9_z256_rand_range (since c0d02d5): the value handed to sign / KEM / exchange / key generation is
+   the first of at most 100 draws lying in [1, range-1]; earlier draws were 0 or >= range.  In particular the
+   nonce r and the master keys (range = N) are never 0 and never >= N. *)
+Theorem C17_rand_range : forall (range : Z) (draws : list (option Z)) (r : Z) (k : nat),
+  (forall d, In (Some d) draws -> 0 <= d) ->
+  rand_range range draws = RR_ok r k ->
+  1 <= r <= range - 1 /\
+  exists pre post, draws = map Some pre ++ Some r :: post /\ k = (length pre + 1)%nat /\ (k <= 100)%nat /\
+                   Forall (fun d => d = 0 \/ range <= d) pre.
+Proof. exact rand_range_spec. Qed.
+Print Assumptions C17_rand_range.
+
+(* history: before c0d02d5 a zero draw was accepted (and used as nonce / master key) *)
+Example C17_rand_range_old_zero_refuted :
+  rand_range_old Nord (Some 0 :: Some 5 :: nil) = RR_ok 0 1 /\ rand_range Nord (Some 0 :: Some 5 :: nil) = RR_ok 5 2.
+Proof. exact rand_range_old_zero_refuted. Qed.
+Print Assumptions C17_rand_range_old_zero_refuted.
